@@ -55,8 +55,14 @@ def gap_variants(toks, kinds, fillers, only_between=False):
                 yield n, f, f
                 continue
             lead = " " if (default == "" and a not in ("(", "((")) else ""
-            trail = "" if f[-1] in " \t\n" else " "
+            # a bracket comment must not share its line with a following command (CMake rejects that)
+            trail = "" if f[-1] in " \t\n" else ("\n" if b in ("id", "doc", "moddoc") else " ")
             yield n, f, default + lead + f + trail
+            if a == ")" and f.lstrip().startswith("#"):
+                # trailing comment on the command's own line
+                yield n, f, " " + f.lstrip() + ("" if f.endswith("\n") else "\n")
+        if a == ")" and b in ("doc", "comment") and not only_between:
+            yield n, "<same line>", " "      # the following (doc)comment starts on the command's line
 
 
 def norm_crlf(s):
@@ -105,7 +111,7 @@ def check_module(job):
         cmp(f"gap {g} ({kinds[g]}->{kinds[g + 1]}) filler {f!r}", cmakegen.render(its, gaps={g: gtext}))
     # head / tail
     for f in fillers:
-        trail = "" if f[-1] in " \t\n" else " "
+        trail = "" if f[-1] in " \t\n" else "\n"
         cmp(f"head filler {f!r}", cmakegen.render(its, {"head": f + trail}))
         cmp(f"tail filler {f!r}", cmakegen.render(its, {"tail": "\n" + f}))
         if f.endswith("\n"):
